@@ -110,13 +110,16 @@ func init() {
 			out = append(out, cs("VH_C01_Hist", 2, 1, 2))
 			if tier == "thorough" {
 				out = append(out, cs("VH_C01_Hist", 2, 2, 3))
-				out = append(out, cs("VH_C01_Hist", 3, 1, 2))
+				out = append(out, cs("VH_C01_Hist", 3, 1, 2), cs("VH_C01_Hist", 4, 1, 1))
+			}
+			for n := 0; n <= q(tier, 3, 5); n++ {
+				out = append(out, cs("VH_C01_ReadOnlyViews", n, 0), cs("VH_C01_ReadOnlyViews", n, 1))
 			}
 			return out
 		},
 		boundsText: map[string]string{
-			"quick":    "one-step induction from an arbitrary Inv pre-state: length n<=3, spare capacity<=1, push batch<=2 (nil values by fork), all 8 mutators, all index arguments; histories of 2 operations from every constructor (capacity 0..2, LIFO/FIFO)",
-			"thorough": "one-step induction from an arbitrary Inv pre-state: length n<=5, spare capacity<=2, push batch<=3; histories of up to 3 operations from every constructor (capacity 0..3, LIFO/FIFO)",
+			"quick":    "one-step induction from an arbitrary Inv pre-state: length n<=3, spare capacity<=1, push batch<=2 (nil values by fork), all 8 mutators, all index arguments; histories of 2 operations from every constructor (capacity 0..2, LIFO/FIFO); every observer on read-only pre-states of length 0..3; a mutex present or not in every pre-state",
+			"thorough": "one-step induction from an arbitrary Inv pre-state: length n<=5, spare capacity<=2, push batch<=3; histories of up to 4 operations from every constructor (capacity 0..3, LIFO/FIFO); read-only observers up to length 5",
 		},
 		outside: "stacks longer than the bound (covered only through the inductive argument with Inv as hypothesis); elements that are Stacks/Conditions (irrelevant to ordering)",
 		assumptions: []string{
@@ -130,7 +133,7 @@ func init() {
 		id: "C03",
 		gen: func(tier string, seed int) []symx.CaseSpec {
 			var out []symx.CaseSpec
-			maxN := q(tier, 3, 5)
+			maxN := q(tier, 3, 7)
 			for n := 0; n <= maxN; n++ {
 				for slack := 0; slack <= 1; slack++ {
 					for op := 0; op <= 6; op++ {
@@ -161,7 +164,7 @@ func init() {
 			}
 			out = append(out, cs("VH_C03_Hist", 2, 2, 2))
 			if tier == "thorough" {
-				out = append(out, cs("VH_C03_Hist", 3, 2, 3))
+				out = append(out, cs("VH_C03_Hist", 3, 2, 3), cs("VH_C03_Hist", 4, 1, 2))
 			}
 			for k := 0; k < 5; k++ {
 				out = append(out, cs("VH_C08_Ctor", k))
@@ -169,8 +172,8 @@ func init() {
 			return out
 		},
 		boundsText: map[string]string{
-			"quick":    "length n<=3, capacity field any value in [n+1,n+4] or none, push/transfer batches<=3, one step of Push/Insert/Transfer/Marshal/Pop/Remove/Reset; histories of 2 steps from constructors with capacity 0..2; constructor capacity argument any int <=64",
-			"thorough": "length n<=5, capacity field any value in [n+1,n+4] or none, batches<=3; histories of 3 steps from constructors with capacity 0..3",
+			"quick":    "length n<=3, capacity field any value in [n+1,n+4] or none, all eight option bits (read-only and no-nesting included) and a mutex present or not, push/transfer batches<=3 with nested Stacks at positions {first, second, first+third}, with and without a push policy, one step of Push/Insert/Transfer/Marshal/Pop/Remove/Reset; histories of 2 steps from constructors with capacity 0..2; constructor capacity argument any int <=64",
+			"thorough": "as quick with length n<=7; histories of 3-4 steps from constructors with capacity 0..3",
 		},
 		outside: "capacities further than 3 above the current length (behave as far from the boundary); stacks longer than the bound",
 		assumptions: []string{"pre-state satisfies Inv; capacity field c means user capacity c-1"},
@@ -202,6 +205,20 @@ func init() {
 				}
 			}
 			out = append(out, cs("VH_C18_FifoAux"))
+			// the read-only switch is invisible to every observer
+			for i, n := range auto.Stack {
+				if !auto.Mut["Stack."+n] {
+					out = append(out, cs("VH_C18_ReadOnlyTransparent", i, 0, 0))
+					if tier == "thorough" {
+						out = append(out, cs("VH_C18_ReadOnlyTransparent", i, 3, 0), cs("VH_C18_ReadOnlyTransparent", i, 16, 0))
+					}
+				}
+			}
+			for i, n := range auto.Cond {
+				if !auto.Mut["Condition."+n] {
+					out = append(out, cs("VH_C18_ReadOnlyTransparent", i, 0, 1), cs("VH_C18_ReadOnlyTransparent", i, 2, 1))
+				}
+			}
 			return out
 		},
 		boundsText: map[string]string{
@@ -216,8 +233,11 @@ func init() {
 		id: "C13",
 		gen: func(tier string, seed int) []symx.CaseSpec {
 			var out []symx.CaseSpec
-			for n := 0; n <= q(tier, 2, 3); n++ {
-				for m := 0; m <= q(tier, 2, 3); m++ {
+			for n := 0; n <= q(tier, 2, 4); n++ {
+				for m := 0; m <= q(tier, 2, 4); m++ {
+					if n+m > 6 {
+						continue
+					}
 					for toggle := 0; toggle <= 1; toggle++ {
 						out = append(out, cs("VH_C13_Push", n, m, toggle, 0))
 						if n > 0 {
@@ -232,8 +252,8 @@ func init() {
 			return out
 		},
 		boundsText: map[string]string{
-			"quick":    "existing length<=2, push batch<=2 with every mix of {primitive, nil, Stack, alias, alias with String, pointer to alias, Condition, int}; no-nesting bit and the other option bits: all values; optional SetNoNesting(b) with b symbolic; Condition side: all five wrappings of the offered stack x text/stack initial expression",
-			"thorough": "as quick with existing length<=3 and batches<=3",
+			"quick":    "existing length<=2, push batch<=2 with every mix of {primitive, nil, Stack, alias, alias with String, pointer to alias, Condition, int}; no-nesting bit and the other option bits: all values; capacity none or any value in [n+1, n+m+2]; optional SetNoNesting(b) with b symbolic; Condition side: all five wrappings of the offered stack x text/stack initial expression",
+			"thorough": "as quick with existing length<=4 and batches<=4 (n+m<=6)",
 		},
 		outside: "batches longer than the bound; push policies (C14); nil pointers to aliases (C08)",
 	})
@@ -242,8 +262,8 @@ func init() {
 		id: "C15",
 		gen: func(tier string, seed int) []symx.CaseSpec {
 			var out []symx.CaseSpec
-			for ns := 0; ns <= q(tier, 3, 4); ns++ {
-				for nd := 0; nd <= q(tier, 3, 4); nd++ {
+			for ns := 0; ns <= q(tier, 3, 6); ns++ {
+				for nd := 0; nd <= q(tier, 3, 5); nd++ {
 					for v := 0; v <= 9; v++ {
 						if v >= 3 && nd > 1 {
 							continue
@@ -255,8 +275,8 @@ func init() {
 			return out
 		},
 		boundsText: map[string]string{
-			"quick":    "source length 0..3 (nil elements by fork, kind/FIFO/options/capacity symbolic), destination length 0..3 with spare backing capacity, destination capacity field none or any value in [nd+1, nd+ns+2]; destination given as Stack, alias, pointer to alias, read-only, zero Stack, foreign value, nil",
-			"thorough": "as quick with lengths 0..4",
+			"quick":    "source length 0..3 (nil elements by fork, kind/FIFO/options/capacity symbolic), destination length 0..3 with spare backing capacity, destination capacity field none or any value in [nd+1, nd+ns+2]; destination given as Stack, alias, pointer to alias, read-only, zero Stack, foreign value, nil, the source itself (handle, alias, pointer)",
+			"thorough": "as quick with source lengths 0..6 and destination lengths 0..5",
 		},
 		outside: "src == dst (self-transfer; not in the quantifier); longer stacks",
 	})
@@ -310,6 +330,17 @@ func init() {
 			}
 			for i := range auto.Stack {
 				out = append(out, cs("VH_C09_AsArgument", i, 0))
+			}
+			// the read-only instance nested below a writable parent whose methods are called
+			for i, n := range auto.Stack {
+				if isMut("Stack."+n) || tier == "thorough" {
+					for nest := 0; nest <= 2; nest++ {
+						out = append(out, cs("VH_C09_NestedUnderParent", i, 0, nest))
+					}
+					if tier == "thorough" {
+						out = append(out, cs("VH_C09_NestedUnderParent", i, 2, 1))
+					}
+				}
 			}
 			// pairs: every mutator followed by every mutator (thorough), a seeded sample (quick)
 			var muts []int
@@ -411,7 +442,7 @@ func init() {
 			add(2, 2, []int{0, 1, 0, 3, 0, 1, 0, 0, 0})
 			add(2, 3, []int{1, 2, 0, 3, 0, 0, 1, 0, 0, 4, 1, 1, 2, 0})
 			add(3, 2, []int{0, 1, 3, 0, 1, 1, 3, 1, 0, 0, 0, 4, 0, 1, 0, 0})
-			n := q(tier, 40, 400)
+			n := q(tier, 100, 1500)
 			r := uint64(seed)*2654435761 + 12345
 			for i := 0; i < n; i++ {
 				var digits []int
@@ -428,8 +459,8 @@ func init() {
 			return out
 		},
 		boundsText: map[string]string{
-			"quick":    "43 trees (3 hand-picked + 40 drawn from VERIF_SEED) of depth<=3, width<=3 with text leaves, nil slots, Conditions (native, alias, pointer to alias) with text or Stack / Stack-alias expressions, nested Stacks and Stack aliases; every path length 0..depth+2 with every index an unconstrained 64-bit variable; negative/forward index bits of every node symbolic",
-			"thorough": "403 trees, same generator",
+			"quick":    "103 trees (3 hand-picked + 100 drawn from VERIF_SEED) of depth<=3, width<=3 with text leaves, nil slots, Conditions (native, alias, pointer to alias) with text or Stack / Stack-alias expressions, nested Stacks and Stack aliases; every path length 0..depth+2 with every index an unconstrained 64-bit variable; all eight option bits of every node symbolic",
+			"thorough": "1503 trees, same generator",
 		},
 		outside: "trees outside the sampled set / deeper or wider than the bound",
 		assumptions: []string{"tree shapes are enumerated (concrete); the solver covers all index values and index-option bits for each shape"},
@@ -509,7 +540,7 @@ func init() {
 				out = append(out, cs("VH_C04", 1, 2, k, 0), cs("VH_C04_Equal", 1, 2, k, 0))
 				out = append(out, cs("VH_C04", 2, 2, k, 1, 5, k, 0), cs("VH_C04", 2, 2, k, 2, 7, 1, 1, 0, 4, 2))
 			}
-			n := q(tier, 300, 3000)
+			n := q(tier, 600, 9000)
 			r := uint64(seed)*2654435761 + 4
 			for i := 0; i < n; i++ {
 				var digits []int
@@ -527,8 +558,8 @@ func init() {
 			return out
 		},
 		boundsText: map[string]string{
-			"quick":    "20 hand-picked + 300 seeded trees of depth<=3, width<=3 over AND/OR/NOT/LIST/BASIC (empty stacks included), Conditions with primitive/Stack/Condition expressions, text/int/bool/nil leaves; leaf ints are unconstrained 64-bit variables, leaf bools and the root fold bit symbolic; the first operator code any of 1..6 (solver variable), the others and inner fold bits drawn with the shape",
-			"thorough": "20 hand-picked + 3000 seeded trees",
+			"quick":    "20 hand-picked + 600 seeded trees of depth<=3, width<=3 over AND/OR/NOT/LIST/BASIC (empty stacks included), Conditions with primitive/Stack/Condition expressions, text/int/bool/nil leaves; leaf ints are unconstrained 64-bit variables, leaf bools and all option bits of the root symbolic; the first operator code any of 1..6 (solver variable), the others, user-defined operators, option sets (fold / read-only / display / index+no-nesting) and operator symbols of inner nodes drawn with the shape",
+			"thorough": "20 hand-picked + 9000 seeded trees",
 		},
 		outside: "leaves that are themselves []any; custom (un)marshalers (C14); Conditions without operator (C06/C16 inputs); capacities (Unmarshal does not carry them)",
 	})
@@ -626,11 +657,11 @@ func init() {
 			// spare-capacity slices of different length against each other
 			out = append(out, cs("VH_C05_SliceLen"))
 			// pointer elements (nil or not), nested slices, interface-typed members
-			for form := 0; form <= 8; form++ {
+			for form := 0; form <= 11; form++ {
 				for where := 0; where <= 2; where++ {
 					for nlx := 0; nlx <= 3; nlx++ {
 						for nly := 0; nly <= 3; nly++ {
-							if (form == 2 || form >= 7) && (nlx > 0 || nly > 0) {
+							if (form == 2 || form == 7 || form == 8 || form == 10) && (nlx > 0 || nly > 0) {
 								continue // no nil-able members
 							}
 							out = append(out, cs("VH_C05_Extra", form, nlx, nly, where))
@@ -638,10 +669,10 @@ func init() {
 					}
 				}
 			}
-			for k := 0; k <= 4; k++ {
+			for k := 0; k <= 5; k++ {
 				out = append(out, cs("VH_C05_Hidden", k))
 			}
-			n := q(tier, 60, 600)
+			n := q(tier, 200, 4000)
 			r := uint64(seed)*2654435761 + 5
 			for i := 0; i < n; i++ {
 				var digits []int
@@ -649,13 +680,17 @@ func init() {
 					r = r*6364136223846793005 + 1442695040888963407
 					digits = append(digits, int((r>>33)%1680))
 				}
-				out = append(out, cs("VH_C05", append([]int{1 + i%2, 3 + i%3, i % 8}, digits...)...))
+				depth := 1 + i%2
+				if tier == "thorough" && i%5 == 4 {
+					depth = 3
+				}
+				out = append(out, cs("VH_C05", append([]int{depth, 3 + i%3, i % 8}, digits...)...))
 			}
 			return out
 		},
 		boundsText: map[string]string{
-			"quick":    "every leaf type (int, string, bool, *int, **int, []int, [3]int, map[string]int, struct, struct with unexported field, nil) as content with every mutation {none, swap siblings, one more, one fewer, other kind, other capacity, same capacity + one fewer, same capacity + equal}; slices with spare capacity and a struct whose interface field holds a slice; Conditions over every leaf type x {keyword, operator, expression-type} mutations with operator codes symbolic; 60 seeded trees (depth<=2, width<=3, <=5 scalar variables per side); every scalar leaf value is a pair of unconstrained 64-bit variables",
-			"thorough": "as quick with 600 seeded trees",
+			"quick":    "every leaf type (int, string, bool, *int, **int, []int, [3]int, map[string]int, struct, struct with unexported field, nil) as content with every mutation {none, swap siblings, one more, one fewer, other kind, other capacity, same capacity + one fewer, same capacity + equal}; slices with spare capacity and a struct whose interface field holds a slice; Conditions over every leaf type x {keyword, operator, expression-type} mutations with operator codes symbolic; pointer elements nil or not ([]*int, [2]*int), [][]int, map[string]any / structs / *structs whose interface member is nil on either side, map[int]int, []any, as root leaf / two levels down / Condition expression; kind, keyword, type differences hidden behind a shared symbol or an absent part; comparands that are no Condition; 200 seeded trees (depth<=2, width<=3, <=5 scalar variables per side) sharing one symbolic option word and symbol; every scalar leaf value is a pair of unconstrained 64-bit variables",
+			"thorough": "as quick with 4000 seeded trees, every fifth of depth 3",
 		},
 		outside: "floats/NaN, funcs, chans, typed-nil pointers as compared leaves; custom equality policies (C14); case-folded kinds",
 		assumptions: []string{"the reference verdict is computed by a plain comparison over the harness's closed type universe"},
@@ -665,12 +700,12 @@ func init() {
 		id: "C12",
 		gen: func(tier string, seed int) []symx.CaseSpec {
 			var out []symx.CaseSpec
-			for k := 0; k <= 22; k++ {
+			for k := 0; k <= 24; k++ {
 				out = append(out, cs("VH_C12_Convert", k))
 			}
 			// every conversion after every other kind of value has been converted
-			for k := 0; k <= 22; k++ {
-				for e := 0; e <= 22; e++ {
+			for k := 0; k <= 24; k++ {
+				for e := 0; e <= 24; e++ {
 					if tier == "thorough" || e >= 19 || e == 12 || (k+e)%5 == 0 {
 						out = append(out, cs("VH_C12_Convert", k, e))
 					}
